@@ -25,6 +25,8 @@ type vStore struct {
 	mu     *sync.Mutex // the store itself is linearisable (etcd)
 	etcd   *vEtcdLock
 	member int
+	// etcd refuses the writes of OBJECT keys (unavailable, request too large, ...)
+	failObjectWrites bool
 }
 
 // vEtcdLock: the lock key in etcd. As with the real concurrency.Mutex, the key belongs to a
@@ -97,12 +99,18 @@ func (s *vStore) Get(key string) (*string, error) {
 func (s *vStore) Put(key, value string) error {
 	s.mu.Lock()
 	defer s.mu.Unlock()
+	if s.failObjectWrites && len(key) > len("/config/objects/") && key[:len("/config/objects/")] == "/config/objects/" {
+		return errors.New("etcd: write refused")
+	}
 	s.kv[key] = value
 	return nil
 }
 func (s *vStore) Delete(key string) error {
 	s.mu.Lock()
 	defer s.mu.Unlock()
+	if s.failObjectWrites && len(key) > len("/config/objects/") && key[:len("/config/objects/")] == "/config/objects/" {
+		return errors.New("etcd: write refused")
+	}
 	delete(s.kv, key)
 	return nil
 }
@@ -133,14 +141,36 @@ func vURLParam(r *http.Request, key string) string { return vNames[r] }
 
 func vHandleAPIError(w http.ResponseWriter, r *http.Request, code int, err error) { w.WriteHeader(code) }
 
+// net/http contract of a ResponseWriter: the header map is sent with the FIRST WriteHeader (or
+// Write); what a handler sets afterwards never reaches the client.
 type vRespWriter struct {
 	hdr    http.Header
 	status int
+	wrote  bool
+	sentV  string // X-Config-Version as it was when the headers were sent
 }
 
-func (w *vRespWriter) Header() http.Header         { return w.hdr }
-func (w *vRespWriter) WriteHeader(c int)           { w.status = c }
-func (w *vRespWriter) Write(p []byte) (int, error) { return len(p), nil }
+func (w *vRespWriter) Header() http.Header { return w.hdr }
+func (w *vRespWriter) WriteHeader(c int) {
+	if !w.wrote {
+		w.status, w.wrote, w.sentV = c, true, w.hdr.Get(ConfigVersionKey)
+	}
+}
+func (w *vRespWriter) Write(p []byte) (int, error) {
+	if !w.wrote {
+		w.WriteHeader(200)
+	}
+	return len(p), nil
+}
+
+// sentVersion: the X-Config-Version the client receives (a handler that returns without writing
+// gets an implicit WriteHeader(200) with the headers as they are then).
+func (w *vRespWriter) sentVersion() string {
+	if w.wrote {
+		return w.sentV
+	}
+	return w.hdr.Get(ConfigVersionKey)
+}
 
 type vBodyReader struct {
 	s    string
@@ -241,7 +271,7 @@ func vAdminAPI(concurrent bool) {
 		ok := op.w.status == 0 || op.w.status == 200 || op.w.status == 201
 		if !ok {
 			// a refused request carries the version that was current when it arrived, never a new one
-			fv := op.w.hdr.Get(ConfigVersionKey)
+			fv := op.w.sentVersion()
 			old := false
 			for d := 0; d <= n; d++ {
 				if fv == vItoa(v0+int64(d)) {
@@ -253,7 +283,7 @@ func vAdminAPI(concurrent bool) {
 			continue
 		}
 		succ++
-		v := op.w.hdr.Get(ConfigVersionKey)
+		v := op.w.sentVersion()
 		k := -1
 		for d := 1; d <= n; d++ {
 			if v == vItoa(v0+int64(d)) {
@@ -283,7 +313,7 @@ func vAdminAPI(concurrent bool) {
 	}
 	for d := 1; d <= succ; d++ {
 		for _, op := range ops {
-			if !op.failed && op.w.hdr.Get(ConfigVersionKey) == vItoa(v0+int64(d)) {
+			if !op.failed && op.w.sentVersion() == vItoa(v0+int64(d)) {
 				cur, exists := ref[op.name]
 				switch op.kind {
 				case 0:
@@ -396,7 +426,58 @@ func verifC18_FreshCluster() {
 	}()
 	wg.Wait()
 	w2 := create("f2")
-	verifAssert(w1.hdr.Get(ConfigVersionKey) == "1" && w2.hdr.Get(ConfigVersionKey) == "2", "versions-grow-by-one-per-successful-mutation")
+	verifAssert(w1.sentVersion() == "1" && w2.sentVersion() == "2", "versions-grow-by-one-per-successful-mutation")
 	verifAssert(store.kv["/config/version"] == "2", "stored-version-counts-successful-mutations")
 	verifCover("fresh-cluster")
+}
+
+// verifC18_FailedWrite: "versions grow by exactly one per SUCCESSFUL mutation and a failed
+// request modifies nothing" when the store refuses the object write of a request (the handler
+// panics with a cluster error, the recoverer middleware - as wired in the real router, inside
+// the version attacher - answers 503): the request consumes no version, the stored objects are
+// as before, and the next successful mutation gets the next version. (A refusal of the VERSION
+// write after the object write went through is outside: the two writes are not one transaction
+// in the code.)
+func verifC18_FailedWrite() {
+	store := &vStore{kv: map[string]string{}, mu: &sync.Mutex{}, etcd: &vEtcdLock{holder: -1}, member: 0}
+	s := &Server{cluster: store, super: &supervisor.Supervisor{}}
+	dm := &dynamicMux{server: s}
+	store.kv["/config/version"] = "7"
+	exists := verifBool("aExists")
+	if exists {
+		vToks["pre"] = vTok{"a", "K1"}
+		store.kv["/config/objects/a"] = "pre"
+	}
+	vToks["w1"], vToks["w2"] = vTok{"a", "K1"}, vTok{"b", "K1"}
+	run := func(kind int, name, tok string) *vRespWriter {
+		w := &vRespWriter{hdr: http.Header{}}
+		r := &http.Request{Method: "X", URL: &url.URL{Path: "/objects"}, Body: &vBodyReader{s: tok}}
+		dm.newConfigVersionAttacher(dm.newRecoverer(http.HandlerFunc(func(w http.ResponseWriter, r *http.Request) {
+			switch kind {
+			case 0:
+				s.createObject(w, r)
+			case 1:
+				vNames[r] = name
+				s.updateObject(w, r)
+			case 2:
+				vNames[r] = name
+				s.deleteObject(w, r)
+			}
+		}))).ServeHTTP(w, r)
+		return w
+	}
+	store.failObjectWrites = true
+	kind := verifChoose("op", 3)
+	w1 := run(kind, "a", "w1")
+	store.failObjectWrites = false
+	verifAssert(w1.status >= 400, "request-whose-write-is-refused-fails")
+	if w1.status == 503 {
+		verifCover("object-write-refused")
+	}
+	verifAssert(w1.sentVersion() == "7", "failed-request-gets-no-new-version")
+	verifAssert(store.kv["/config/version"] == "7", "failed-request-consumes-no-version")
+	v, ok := store.kv["/config/objects/a"]
+	verifAssert(ok == exists && (!ok || v == "pre"), "failed-request-modifies-nothing")
+	w2 := run(0, "b", "w2")
+	verifAssert(w2.status == 201 && w2.sentVersion() == "8" && store.kv["/config/version"] == "8", "versions-grow-by-one-per-successful-mutation")
 }
